@@ -587,6 +587,26 @@ static void run_case(char** tok, int n)
       APPEND(str, str_n, "[%s]", lg);
       break;
     }
+    case 'X': {
+      // the in/out idiom: the key object and the out-parameter are the same 8 bytes
+      callkey = key;
+      begin_call(op, -1, true);
+      ZixStatus st;
+      CALL(st = zix_hash_remove(hash, &callkey, (ZixHashRecord**)(void*)&callkey));
+      // NOT_FOUND leaves the out-parameter (here: the key object) alone or nulls it: only a record pointer counts
+      void* removed = (st == ZIX_STATUS_NOT_FOUND) ? NULL : (void*)(uintptr_t)callkey;
+      const int rid = id_of_record(removed);
+      if (st != ZIX_STATUS_NOT_FOUND) {
+        have_plan = false;
+      }
+      if (rid >= 0) {
+        recs[rid].stored = false;
+      }
+      APPEND(obs, obs_n, "X=%s:", st_name(st));
+      put_id(obs, &obs_n, rid, "null");
+      APPEND(str, str_n, "[%s]", lg);
+      break;
+    }
     case 'E': {
       callkey = key;
       begin_call(op, -1, true);
